@@ -35,8 +35,13 @@ pub struct Case {
     pub honest: bool,
     /// the application clears NEED_TIME when the time is written
     pub clears_need_time: bool,
-    /// result of write_absolute_time: 0 ok, 1 parameter error, 2 not supported
+    /// result of write_absolute_time: % 3: 0 ok, 1 parameter error, 2 not supported; (/ 3) % 2 == 1: the application
+    /// does not indicate NEED_TIME at all (a synchronisation on the user's initiative)
     pub write_result: u8,
+    /// the synchronisation is requested while a READ of the same association is still waiting for its response, so
+    /// that it waits in the queue: the clock values it uses must be those of its own transmission
+    #[serde(default)]
+    pub busy: bool,
     /// unrelated traffic: unsolicited reporting enabled and updates made at these offsets (ms after the start)
     pub unsolicited: bool,
     pub updates_at: Vec<u32>,
@@ -75,7 +80,7 @@ pub fn run_case(case: &Case) -> CaseOut {
         ac.auto_tasks_retry_strategy = RetryStrategy::new(Duration::from_secs(500), Duration::from_secs(500));
         let cfg = PairConfig { out: oc, master_discard: false, master_tx: 2048, master_rx: 2048, master_decode: [0; 4], assoc: ac };
         let beh = AppBehaviour {
-            iin: ApplicationIin { need_time: true, ..Default::default() },
+            iin: ApplicationIin { need_time: (case.write_result / 3) % 2 == 0, ..Default::default() },
             processing_delay_ms: case.reported,
             write_time: match case.write_result % 3 {
                 0 => Ok(()),
@@ -151,7 +156,7 @@ pub fn run_case(case: &Case) -> CaseOut {
         }
         {
             let mut b = rig.shared.beh.lock().unwrap();
-            b.iin.need_time = true;
+            b.iin.need_time = (case.write_result / 3) % 2 == 0;
             b.write_time = match case.write_result % 3 {
                 0 => Ok(()),
                 1 => Err(RequestError::ParameterError),
@@ -175,6 +180,17 @@ pub fn run_case(case: &Case) -> CaseOut {
             1 => TimeSyncProcedure::NonLan,
             _ => TimeSyncProcedure::DirectWriteAbsTime,
         };
+        if case.busy {
+            out.label("requested_while_busy");
+            let mut h = rig.assoc.clone();
+            tokio::spawn(crate::verif::rig::Counted::new(
+                async move {
+                    let _ = h.read(ReadRequest::class_scan(Classes::class0())).await;
+                },
+                rig.polls.clone(),
+            ));
+            rig.settle().await;
+        }
         let result: std::sync::Arc<std::sync::Mutex<Option<(u64, String)>>> = Default::default();
         {
             let mut h = rig.assoc.clone();
@@ -279,7 +295,7 @@ pub fn run_case(case: &Case) -> CaseOut {
         if case.write_result % 3 != 0 && !written.is_empty() {
             must_fail = Some("the outstation application rejected the time".into());
         }
-        if !case.clears_need_time && !written.is_empty() {
+        if !case.clears_need_time && (case.write_result / 3) % 2 == 0 && !written.is_empty() {
             must_fail = Some("the outstation still indicates NEED_TIME after the write".into());
         }
         if case.procedure % 3 == 1 {
@@ -411,14 +427,17 @@ fn case_strategy() -> BoxedStrategy<Case> {
         reported,
         prop_oneof![4 => Just(true), 1 => Just(false)],
         prop_oneof![5 => Just(true), 1 => Just(false)],
-        prop_oneof![6 => Just(0u8), 1 => Just(1u8), 1 => Just(2u8)],
+        prop_oneof![6 => Just(0u8), 1 => Just(1u8), 1 => Just(2u8), 1 => Just(3u8), 1 => Just(4u8), 1 => Just(5u8)],
         prop_oneof![3 => Just(false), 1 => Just(true)],
         proptest::collection::vec(0u32..150_000, 0..4),
         proptest::collection::vec(0u32..150_000, 0..3),
         prop_oneof![Just(0u32), Just(1), 0u32..100_000],
-        prop_oneof![3 => Just(vec![]), 2 => proptest::collection::vec((0u8..3, 0u8..3, prop_oneof![Just(0u32), Just(5000u32), 0u32..60_000]), 1..3)],
+        (
+            prop_oneof![3 => Just(vec![]), 2 => proptest::collection::vec((0u8..3, 0u8..3, prop_oneof![Just(0u32), Just(5000u32), 0u32..60_000]), 1..3)],
+            prop_oneof![3 => Just(false), 1 => Just(true)],
+        ),
     )
-        .prop_map(|(procedure, clock, (f1, b1, f2, b2), reported, honest, clears_need_time, write_result, unsolicited, updates_at, bogus_at, start_at, prelude)| Case { procedure, clock, f1, b1, f2, b2, reported, honest, clears_need_time, write_result, unsolicited, updates_at: if unsolicited { updates_at } else { vec![] }, bogus_at, start_at, prelude })
+        .prop_map(|(procedure, clock, (f1, b1, f2, b2), reported, honest, clears_need_time, write_result, unsolicited, updates_at, bogus_at, start_at, (prelude, busy))| Case { procedure, clock, f1, b1, f2, b2, reported, honest, clears_need_time, write_result, unsolicited, updates_at: if unsolicited { updates_at } else { vec![] }, bogus_at, start_at, prelude, busy })
         .boxed()
 }
 
